@@ -62,7 +62,7 @@ class Unit:
 
 
 DERIVED_FROM_C01 = ('C16', 'C20')
-DIRECTIVES = ('strmatch', 'foldinv', 'foldloops', 'closure', 'fornext', 'boxiter', 'assert', 'forwhile', 'selfparam', 'props', 'requires', 'ensures', 'loop', 'rewrite', 'rewrite*', 'insert', 'emit', 'attr', 'rename',
+DIRECTIVES = ('default', 'strmatch', 'foldinv', 'foldloops', 'closure', 'fornext', 'boxiter', 'assert', 'forwhile', 'selfparam', 'props', 'requires', 'ensures', 'loop', 'rewrite', 'rewrite*', 'insert', 'emit', 'attr', 'rename',
               'ret', 'end', 'recommends', 'decreases', 'nocanary')
 
 
@@ -141,6 +141,13 @@ def parse_unit(path):
                 cur = None
             elif first == 'props':
                 cur.props = rest.split()
+            elif first == 'default':
+                # `default FILE :: TRAIT`: when the impl block does not define the method, the body that runs is the
+                # trait's default method; it is extracted from the trait and emitted for this type
+                mdf = re.match(r'(\S+)\s*::\s*(\w+)\s*$', rest.strip())
+                if not mdf:
+                    err('bad default')
+                cur.default = (mdf.group(1), mdf.group(2))
             elif first == 'emit':
                 cur.emit = rest
             elif first == 'attr':
@@ -685,9 +692,19 @@ def find_anchor(src, anchor, a, b, what):
 
 def emit_fn(asm, unit, fs, src, canary):
     out = asm.out
+    file_used = fs.file
     if fs.impl != '-':
         ihs, ibo, ibc = src.find_impl(fs.impl)
-        hs, fn_kw, bo, bc = src.find_fn(fs.name, ibo + 1, ibc)
+        try:
+            hs, fn_kw, bo, bc = src.find_fn(fs.name, ibo + 1, ibc)
+        except Lost:
+            if not getattr(fs, 'default', None):
+                raise
+            # the type does not override the method: what runs is the default method of the trait
+            src = Source(os.path.join(repo_src(), fs.default[0]))
+            file_used = fs.default[0] + ' (default method of trait ' + fs.default[1] + ', not overridden in ' + fs.file + ')'
+            ths, tbo, tbc = src.find_trait(fs.default[1])
+            hs, fn_kw, bo, bc = src.find_fn(fs.name, tbo + 1, tbc)
     else:
         hs, fn_kw, bo, bc = src.find_fn(fs.name)
     closure_sig = None
@@ -1024,7 +1041,7 @@ def emit_fn(asm, unit, fs, src, canary):
     emit = fs.emit
     if emit is None:
         emit = ('impl ' + fs.impl.split(' for ')[-1]) if fs.impl != '-' else ''
-    out.add_text(f'// ---- fn {fs.qual} extracted from {fs.file}:{src.line_of(fn_kw)}-{src.line_of(bc)} sha256={fhash[:16]}', ('gen',))
+    out.add_text(f'// ---- fn {fs.qual} extracted from {file_used}:{src.line_of(fn_kw)}-{src.line_of(bc)} sha256={fhash[:16]}', ('gen',))
     if emit:
         out.add_text(emit + ' {', ('gen',))
     for a in fs.attrs:
@@ -1041,7 +1058,7 @@ def emit_fn(asm, unit, fs, src, canary):
             asm.canary_lines[ln] = o[1]
     asm.fn_hash[fs.qual] = fhash
     asm.functions.append({
-        'fn': fs.qual, 'file': 'regexml/src/' + fs.file,
+        'fn': fs.qual, 'file': 'regexml/src/' + file_used,
         'lines': [src.line_of(fn_kw), src.line_of(bc)], 'sha256': fhash,
         'props': fs.props, 'gen_lines': [start_line, end_line],
         'clauses': [c.cid for c in fs.clauses], 'rewrites': sorted(set(log)), 'loops': len(loops), 'attrs': list(fs.attrs),
